@@ -36,6 +36,8 @@ class Budget(Exception):
 
 
 class SimLoop(asyncio.BaseEventLoop):
+    STARVE_AFTER = 64
+
     def __init__(self, tape, policy: int = P0, max_steps: int = 20000, max_time: float = 1e7,
                  shuffle_ties: bool = True):
         super().__init__()
@@ -50,13 +52,15 @@ class SimLoop(asyncio.BaseEventLoop):
         self._task_counter = 0
         self.steps = 0
         self.unhandled: List[str] = []
-        self.externals: List[asyncio.Future] = []   # P1: futures the scheduler resolves
+        self.externals: List[Any] = []   # P1: (future, len(ready) at creation, pops at creation)
         self.after_handle: Optional[Callable[[], None]] = None
         self.before_handle: Optional[Callable[[Any], None]] = None
         self.stats = None                      # Counter supplied by the simulator
         self.set_exception_handler(self._on_unhandled)
         self.set_task_factory(self._task_factory)
         self._clock_resolution = 1e-9
+        self._since_clock_moved = 0
+        self._pops = 0                         # handles taken from the front of the ready queue so far
 
     # -- things BaseEventLoop wants from a concrete loop ------------------------------------
     def _process_events(self, event_list):
@@ -110,12 +114,17 @@ class SimLoop(asyncio.BaseEventLoop):
             heapq.heappop(tm)[2]._scheduled = False
         if not tm:
             return
-        if not self._ready:
+        # Real time passes while ready handles run.  A program that always has a ready handle (a polling
+        # loop around sleep(0)) must not starve its timers for ever just because the clock is virtual:
+        # after STARVE_AFTER handles without clock movement the clock is advanced to the earliest timer.
+        starving = self._ready and self._since_clock_moved >= self.STARVE_AFTER
+        if not self._ready or starving:
             when = tm[0][0]
             if when > self._now:
                 if when > self.max_time:
                     raise Budget(f"virtual time cap {self.max_time} exceeded")
                 self._now = when
+                self._since_clock_moved = 0
         due = []
         while tm and tm[0][0] <= self._now:
             when, seq, h = heapq.heappop(tm)
@@ -145,6 +154,7 @@ class SimLoop(asyncio.BaseEventLoop):
         if self.before_handle is not None:
             self.before_handle(h)
         self.steps += 1
+        self._since_clock_moved += 1
         if self.steps > self.max_steps:
             raise Budget(f"step cap {self.max_steps} exceeded")
         h._run()
@@ -163,14 +173,18 @@ class SimLoop(asyncio.BaseEventLoop):
         if not force and not self.tape.chance(1, 3, "arrive?"):
             return
         k = self.tape.draw(len(ext), "arrive-which")
-        fut = ext.pop(k)
+        fut, ready_at_creation, pops_at_creation = ext.pop(k)
         if fut.done():
             return
         before = len(self._ready)
         fut.set_result(None)
         n_new = len(self._ready) - before
-        if n_new == 1 and before > 0:
-            pos = self.tape.draw(before + 1, "arrive-pos")
+        # handles that were queued before this completion could possibly exist keep their precedence
+        # (call_soon is FIFO): only the handles queued since then may be overtaken
+        old_front = max(0, ready_at_creation - (self._pops - pops_at_creation))
+        movable = max(0, before - old_front)
+        if n_new == 1 and movable > 0:
+            pos = self.tape.draw(movable + 1, "arrive-pos")
             if pos != 0:
                 h = self._ready.pop()
                 self._ready.insert(before - pos, h)
@@ -179,7 +193,7 @@ class SimLoop(asyncio.BaseEventLoop):
 
     def external(self) -> asyncio.Future:
         fut = self.create_future()
-        self.externals.append(fut)
+        self.externals.append((fut, len(self._ready), self._pops))
         return fut
 
     def _iteration(self) -> bool:
@@ -207,6 +221,7 @@ class SimLoop(asyncio.BaseEventLoop):
             if not ready:
                 break
             h = ready.popleft()
+            self._pops += 1
             self._run_handle(h)
             if self.policy == P1:
                 self._maybe_arrival()
@@ -250,7 +265,7 @@ class SimLoop(asyncio.BaseEventLoop):
                 self.max_steps = self.steps + 100000
                 self.policy = P0
                 self.after_handle = self.before_handle = None
-                for f in self.externals:
+                for f, _, _ in self.externals:
                     if not f.done():
                         f.cancel()
                 self.externals.clear()
